@@ -2,6 +2,19 @@ use chrono_verif_harness::w::{self, Ctx, Tier};
 
 fn main() {
     let args: Vec<String> = std::env::args().collect();
+    // probe mode: one call that may exhaust the stack (which no catch_unwind can turn into data) runs in a process of its own
+    if args.len() == 4 && args[1] == "probe" {
+        let n: usize = args[3].parse().expect("count");
+        let r = match args[2].as_str() {
+            "rfc2822-nested-comment" => chrono::DateTime::parse_from_rfc2822(&format!("Tue, 20 Jan 2015 17:35:20 -0800 {}{}", "(".repeat(n), ")".repeat(n))).is_ok(),
+            "rfc2822-open-comment" => chrono::DateTime::parse_from_rfc2822(&format!("Tue, 20 Jan 2015 17:35:20 -0800 {}", "(".repeat(n))).is_ok(),
+            "rfc3339-long-fraction" => chrono::DateTime::parse_from_rfc3339(&format!("2015-01-20T17:35:20.{}Z", "1".repeat(n))).is_ok(),
+            "strftime-many-items" => chrono::NaiveDate::parse_from_str(&"x".repeat(n), &"x".repeat(n)).is_ok(),
+            _ => { eprintln!("unknown probe"); std::process::exit(2); }
+        };
+        println!("PROBE {}", if r { "ok" } else { "err" });
+        return;
+    }
     let mut workload = String::new();
     let mut tier = Tier::Quick;
     let mut seed = 1u64;
